@@ -19,10 +19,13 @@ import GqlModel.Syntax.Ast
     untouched, a JSON value of the wrong type is an error.
 
   Domain of the decoder model (everything `enc…` produces is inside): keys are matched exactly
-  (the case-folding fallback of default struct decoding is not modelled), non-null values of the
-  link keys and of `Comment`/`Position` are skipped without being type-checked, and shapes the
-  tree type cannot hold (`null` list elements = nil pointers, a missing `Type`/`Value`) are
-  reported as the error `unmodelled`.
+  (the case-folding fallback of default struct decoding is not modelled), an object has no
+  duplicate keys (Go keeps the last one in the four map-based decoders and merges in the default
+  struct decoders), non-null values of the link keys and of `Comment`/`Position` are skipped
+  without being type-checked, numbers are integer literals, and shapes the tree type cannot hold
+  (`null` list elements = nil pointers, a missing `Type`/`Value`, a `Kind` outside 0..9) are
+  reported as the error `unmodelled`.  Check C19 compares the decoder with the real one on
+  hand-written and mutated JSON inside this domain (op `jsondec`).
 
   How a selection object is classified lives in ONE place: `currentDisc`.
 -/
@@ -293,11 +296,15 @@ inductive SelKind
     element every listed decoder rejects is dropped without an error. -/
 abbrev Disc := Json → List SelKind
 
-/-- /repo/ast/decode.go as it stands: `Field`, then `FragmentSpread`, then `InlineFragment`. -/
+/-- HISTORY — /repo/ast/decode.go before the commit "JSON-decoded selections keep their kind":
+    `Field`, then `FragmentSpread`, then `InlineFragment` (the first never fails on an object). -/
 def legacyDisc : Disc := fun _ => [.field, .spread, .inline]
 
-/-- The repair sketched in DESIGN appendix F (R19): choose the decoder by the keys present —
-    `Alias` ⇒ field, `TypeCondition` ⇒ inline fragment, otherwise fragment spread. -/
+/-- /repo/ast/decode.go as it stands (`UnmarshalSelectionSet`): the item is first decoded into
+    `keys map[string]json.RawMessage` (error ignored), then ONE decoder is chosen —
+    `keys["Alias"]` present, or `keys == nil` (the item is `null` or not a JSON object) ⇒ `Field`;
+    else `keys["TypeCondition"]` present ⇒ `InlineFragment`; else ⇒ `FragmentSpread`.  An item the
+    chosen decoder rejects is dropped (`pick` on a one-element list). -/
 def repairedDisc : Disc
   | .obj kvs =>
     if kvs.hasKey kAlias then [.field]
@@ -305,8 +312,8 @@ def repairedDisc : Disc
     else [.spread]
   | _ => [.field]
 
-/-- THE discriminator of the modelled code (flip to `repairedDisc` when decode.go is repaired). -/
-def currentDisc : Disc := legacyDisc
+/-- THE discriminator of the modelled code. -/
+def currentDisc : Disc := repairedDisc
 
 structure FieldAcc where
   alias : Name := []
